@@ -36,7 +36,8 @@ def decimals(p: int, s: int):
     """Decimals exactly representable at NUMBER(p,s)."""
     hi = 10**p - 1
     edges = [0, 1, -1, hi, -hi, 10 ** (p - 1) if p > 1 else 1, 5]
-    return st.one_of(st.sampled_from(edges), st.integers(-hi, hi)).map(lambda n: Decimal(n).scaleb(-s))
+    ctx = __import__("decimal").Context(prec=80)
+    return st.one_of(st.sampled_from(edges), st.integers(-hi, hi)).map(lambda n: Decimal(n).scaleb(-s, context=ctx))
 
 
 dates = st.one_of(
